@@ -23,7 +23,7 @@ CATALOG = {
         "drivers": [("call", {"quick": 400, "thorough": 15000}, {})],
         "models": [{"module": "MC_Algebra", "cfg": {"quick": "MC_Algebra_quick", "thorough": "MC_Algebra_thorough"},
                     "extract": "algebra_vectors", "replay": "run_algebra_vector", "chunk": 40,
-                    "limit": {"quick": 2000, "thorough": 60000}}],
+                    "limit": {"quick": 3000, "thorough": 250000}}],
     },
     "C03": {
         "drivers": [("construct", {"quick": 400, "thorough": 20000}, {})],
@@ -53,7 +53,7 @@ CATALOG = {
         "drivers": [("deriv", {"quick": 500, "thorough": 20000}, {})],
         "models": [{"module": "MC_Algebra", "cfg": {"quick": "MC_Algebra_quick", "thorough": "MC_Algebra_thorough"},
                     "extract": "algebra_vectors", "replay": "run_algebra_vector", "chunk": 40,
-                    "limit": {"quick": 2000, "thorough": 60000}}],
+                    "limit": {"quick": 3000, "thorough": 250000}}],
     },
     "C07": {
         "drivers": [("order", {"quick": 500, "thorough": 20000}, {})],
@@ -123,7 +123,7 @@ CATALOG = {
         "drivers": [("keys", {"quick": 400, "thorough": 20000}, {})],
         "models": [{"module": "MC_Keys", "cfg": {"quick": "MC_Keys_quick", "thorough": "MC_Keys_thorough"},
                     "extract": "key_vectors", "replay": "run_key_vector", "chunk": 60,
-                    "limit": {"quick": 2000, "thorough": 60000}}],
+                    "limit": {"quick": 3000, "thorough": 250000}}],
     },
     "C17": {
         "drivers": [("frame", {"quick": 400, "thorough": 15000}, {})],
